@@ -9,13 +9,19 @@ LEAN = os.path.join(os.path.dirname(HERE), "lean")
 
 
 def main():
-    for fn in sorted(os.listdir(os.path.join(LEAN, "Blackbird", "Props"))):
+    files = sorted(os.listdir(os.path.join(LEAN, "Blackbird", "Props")))
+    for fn in files:
         if not re.fullmatch(r"C\d+\.lean", fn):
             continue
         pid = fn[:-5]
-        src = open(os.path.join(LEAN, "Blackbird", "Props", fn), encoding="utf-8").read()
-        names = re.findall(r"^theorem\s+(%s_[A-Za-z0-9_']+)" % pid, src, re.M)
-        imports = ["import Blackbird.Props.%s" % pid]
+        names = []
+        imports = []
+        # Props/Cxx.lean and any Props/Cxx<Suffix>.lean
+        for f2 in files:
+            if re.fullmatch(pid + r"[A-Za-z]*\.lean", f2):
+                src = open(os.path.join(LEAN, "Blackbird", "Props", f2), encoding="utf-8").read()
+                names += re.findall(r"^theorem\s+(%s_[A-Za-z0-9_']+)" % pid, src, re.M)
+                imports.append("import Blackbird.Props.%s" % f2[:-5])
         gen = os.path.join(LEAN, "GenProps", fn)
         if os.path.exists(gen):
             gsrc = open(gen, encoding="utf-8").read()
